@@ -147,7 +147,7 @@ func (h *H) drawCase(rt *rapid.T, prop string, excl map[string]int) *core.Case {
 		s.Prior = g.Pick([]string{"absent", "bytes", "good", "longer", "longer"})
 		s.Rm = g.Chance(35)
 		faults := []string{"none", "none", "none", "none", "none", "none", "noargs", "onearg", "srcmissing", "srcempty", "syntaxerr", "typeerr", "twopkgs", "badarg", "badarg", "badarg",
-			"mkdirfail", "outisdir", "immutable", "immutabledir", "longname", "rmfail", "fsize", "stdout", "badarg-stdout"}
+			"mkdirfail", "outisdir", "outisemptydir", "immutable", "immutabledir", "longname", "rmfail", "fsize", "stdout", "badarg-stdout"}
 		s.Fault = g.Pick(faults)
 		if s.Fault == "fsize" && h.Open["F-J"] {
 			excl["F-J"]++
@@ -199,7 +199,7 @@ func (h *H) drawCase(rt *rapid.T, prop string, excl map[string]int) *core.Case {
 		if (s.Fault == "immutable") && s.Prior == "absent" {
 			s.Prior = "bytes"
 		}
-		if s.Fault == "immutabledir" || s.Fault == "mkdirfail" || s.Fault == "longname" || s.Fault == "outisdir" || s.Fault == "rmfail" {
+		if s.Fault == "immutabledir" || s.Fault == "mkdirfail" || s.Fault == "longname" || s.Fault == "outisdir" || s.Fault == "outisemptydir" || s.Fault == "rmfail" {
 			s.Prior = "absent"
 		}
 		if s.Fault == "rmfail" {
